@@ -568,6 +568,10 @@ func c14Observed(o *Outcome) []string {
 		if s.ErrDelivered {
 			obs = append(obs, FaultReadError)
 		}
+		if s.CloseErrDelivered {
+			// an implementation may report a failing Close or ignore it
+			obs = append(obs, FaultCloseError)
+		}
 		if s.EOFDelivered && (s.CutClass == "hdr_body" || s.CutClass == "body") {
 			obs = append(obs, FaultCut)
 		}
@@ -734,7 +738,13 @@ func (propC14) Check(t *testing.T, p *Plan, st *Stats) *Violation {
 			}
 			return viol("C14(ii:result-equals-twin)", "the fault-free twin's result: "+clip(b, 400), clip(a, 400))
 		}
-		if len(observed) > 0 && p.Tags["undetermined"] == "1" {
+		hard := 0
+		for _, k := range observed {
+			if k != FaultCloseError {
+				hard++
+			}
+		}
+		if hard > 0 && p.Tags["undetermined"] == "1" {
 			// nothing to compare the answer with: fall back to the literal reading
 			return viol("C14(i:error-surfaces)", fmt.Sprintf("an error (the code was told about: %v)", observed), "nil error, "+o.Result.Summary())
 		}
